@@ -134,6 +134,8 @@ def run(ctx):
                 'bounding range can reach fchans)', gi, rgi.ret,
                 ctx.spec(gi, 'np.round((frequency - self.fmin) / self.df).astype(int)'), node=gi.node, construct='return get_index')
     T.NOTNONE.update({'path', 't_profile', 'f_profile', 'BFR'})
+    T.INTEGER.update({'t_subsamples', 'f_subsamples', 'smearing_subsamples'})      # (sub-sample counts are positive integers)
+    T.POSITIVE.update({'t_subsamples', 'f_subsamples', 'smearing_subsamples'})
     T.SYMKIND.update({'path': 'callable', 't_profile': 'callable'})
     F = ctx.spec(fi, 'self.fchans')
     for bounded in (False, True):
@@ -214,8 +216,9 @@ def run(ctx):
     extra = sorted(set(callers) - ok_callers)
     ctx.ob('WHOWRITES', 'the noise re-estimate is triggered only by construction, the noise routines and normalisation of a copy',
            'frame.Frame', not extra, {'callers': sorted(set(callers)), 'unexpected': extra}, construct='_update_noise_frame_stats callers')
+    frame_family = {c.qual for c in prog.classes.values() if any(b.name == 'Frame' for b in c.mro())}
     for attr in ('fs', 'ts', 'shape', 'metadata', 'rng', 'fchans', 'tchans', 'df', 'dt', 'fch1'):
-        w = who_writes(ctx, attr, None)
+        w = who_writes(ctx, attr, None, cls_family=frame_family)
         bad = sorted(q for q in w if q == FR + 'add_signal' or q == FR + 'add_constant_signal')
         if bad:
             ctx.ob('EFFECTS', f'injection does not assign frame.{attr}', fi, False, {'writers': bad}, node=w[bad[0]],
